@@ -2,7 +2,7 @@
 C01 — the protocol-level theorems of `Props/C01Cluster.lean` WITHOUT restriction R1: changesets reach
 `process_multiple_changes` in BATCHES of several changesets of several actors.  Property theorems
 only; definitions and lemmas are in `Model/ClusterSysBatch.lean` and
-`Lemmas/ClusterBatch{GI,Commit,Tx,Db,Deliver,Step}.lean`.
+`Lemmas/ClusterBatch{GI,Commit,Tx,Db,Deliver,Step,Live,Effect,Session,Conv}.lean`.
 
 The batched cluster model (`ClusterSys.stepB`) has the state of `ClusterSys` (nodes, global log `L`,
 ghost received-lists `R i`) and the steps
@@ -29,16 +29,17 @@ but a direct proof that the node invariant (`NInv`, `LInv` with `held_inv`) is p
 `n.deliver batch` for an ARBITRARY batch of changesets satisfying `ChunkOK` (`batch_preserves_inv`),
 through a generalised invariant that holds at every point inside the call (`Lemmas/ClusterBatchGI`).
 
-RESTRICTIONS that remain (R2–R5 of `Props/C01Cluster.lean`, unchanged; R1 is gone):
+RESTRICTIONS that remain (R2–R6 of `Props/C01Cluster.lean`; R1 is gone):
 R2 `LogOK c.log` (no re-insertion of a deleted row), R3 `OpOKB` (the local write path agrees with
 merging its own change list), R4 (`held_inv`, convergence) no kill / restart and the run passes only
-through `clean` states, R5 (convergence) `NoTies`.  Liveness (`sync_round_progress`,
-`eventual_convergence`) is NOT lifted here: with batches "one lossless session suffices" is false as
-soon as a broadcast chunk shares a batch with the session's `Empty` answer
-(`empty_after_chunk_dropped_counterexample`: the `Empty` is dropped, the version stays partial until
-the next round).
+through `clean` states, R5 (convergence) `NoTies`, R6 (liveness) fairness is a HYPOTHESIS, and a
+session counts as LOSSLESS (`LosslessB`) when the client's batches contain answers of the server
+only — every answer in at least one batch, any split into batches, any order, repeats — and NO
+broadcast chunk.  The last clause is necessary: `empty_after_chunk_dropped_counterexample` (an
+`Empty` answer that shares a batch with an earlier broadcast chunk of its version is dropped inside
+the transaction, the version stays partial until the next round).
 -/
-import Corro.Lemmas.ClusterBatchStep
+import Corro.Lemmas.ClusterBatchConv
 import Corro.Props.C01Cluster
 
 namespace Corro.ClusterSys
@@ -179,6 +180,77 @@ theorem converged_when_quiescent_batch_partial {k : Nat} {c : Cluster} (h : Reac
     (n : Node) (hi : c.nodes[i]? = some n) : view n.db = spec c.log.all :=
   converged_at_quiescence_batch_partial h hL hnt hcs (allHeld_of_quiescent hL hq) i n hi
 
+/-! ### 5. liveness under a fairness hypothesis -/
+
+/-- **what is held stays held**, one batch: delivering any batch of changesets satisfying `ChunkOK` to
+an alive node satisfying the node invariant loses nothing the node holds -/
+theorem batch_keeps_held {L : Log} {n : Node} {R : List Chg} (h : FullInv L n R) (hL : LogOK L)
+    (batch : List Item) (hck : ∀ it ∈ batch, ChunkOK L it) (a v : Nat) (hh : Held n a v) :
+    Held (n.deliver batch) a v :=
+  deliverB_held_mono h.1 h.2 hL hck hh
+
+/-- **`sync_round_progress`, batched.**  From a clean state of a cluster reachable in the batched
+model under R2–R4, one LOSSLESS session of client `i` with server `j` — the client's batches contain
+answers of the server only, and every answer is in at least one batch (`LosslessB`: ANY split of the
+session into batches, any order inside and across batches, repeats allowed) — leaves `i` holding
+every version of every actor other than `i` itself that `j` holds, and everything `i` held before.
+
+Batch-specific content: a version is settled by a complete changeset or an `Empty` although the
+bookkeeping the changesets are checked against is frozen at the start of the batch; a partial grows
+by every chunk of the batch although the `seen` map only remembers the last one; the apply of a
+version completed in the batch runs after the batch.
+
+Not covered (and false, `empty_after_chunk_dropped_counterexample`): sessions whose batches also
+contain broadcast chunks. -/
+theorem sync_round_progress_batch_partial {k : Nat} {c : Cluster} (h : ReachLiveB k c) (hL : LogOK c.log)
+    (hcl : c.clean = true) {i j : Nat} (hij : i ≠ j) {ni nj : Node} (hi : c.nodes[i]? = some ni)
+    (hj : c.nodes[j]? = some nj) {batches : List (List Pick)} (hless : LosslessB (answers ni nj) batches) :
+    ∃ ni', (stepB c (.syncB i j batches)).nodes[i]? = some ni' ∧
+      (∀ a v, a ≠ i → 1 ≤ v → Held nj a v → Held ni' a v) ∧ (∀ a v, Held ni a v → Held ni' a v) :=
+  sync_step_progressB h hL hcl hij hi hj hless
+
+/-- **every node always holds its own versions**, batched model -/
+theorem origin_holds_own_batch_partial {k : Nat} {c : Cluster} (h : ReachLiveB k c) (hL : LogOK c.log)
+    (i : Nat) (n : Node) (hi : c.nodes[i]? = some n) (v : Nat) (h1 : 1 ≤ v) (h2 : v ≤ c.log.head i) :
+    Held n i v :=
+  (reachLiveB_own h hL).own i n hi v h1 h2
+
+/-- **`eventual_convergence`, batched.**  Let `c` be reachable in the batched model under R2–R4 with a
+well-formed log without ties that is incarnation-complete.  Writes stop; the cluster runs ANY schedule
+`ops` of lossless sync sessions, each from a clean state and each processed by its client in any
+split into batches (`LosslessRunB`), that contains for every ordered pair of distinct nodes `(i, a)`
+at least one session `i ← a` (`hcov`).  Then the log is unchanged, every node holds every version of
+it, and every node shows the specification of all acknowledged changes: all replicas agree.
+
+The existence of such a schedule is the fairness ASSUMPTION of C01's liveness (R6). -/
+theorem eventual_convergence_batch_partial {k : Nat} {c : Cluster} (h : ReachLiveB k c) (hL : LogOK c.log)
+    (hnt : NoTies c.log.all) (hcs : CompleteStrong c.log.all) (ops : List OpB) (hrun : LosslessRunB c ops)
+    (hcov : ∀ i a, i < k → a < k → i ≠ a → ∃ batches, OpB.syncB i a batches ∈ ops) :
+    (runB c ops).log = c.log ∧ AllHeld (runB c ops) ∧
+    ∀ (i : Nat) (n : Node), (runB c ops).nodes[i]? = some n → view n.db = spec c.log.all := by
+  have hown := reachLiveB_own h hL
+  obtain ⟨hr', hlog, hall⟩ := allHeld_after_scheduleB h hL ops hrun (by
+    intro i a hi ha
+    by_cases hia : i = a
+    · subst hia
+      exact Or.inl (fun n hn v h1 h2 => hown.own i n hn v h1 h2)
+    · exact Or.inr ⟨hia, hcov i a hi ha hia⟩)
+  have hL' : LogOK (runB c ops).log := by rw [hlog]; exact hL
+  have hown' := reachLiveB_own hr' hL'
+  have hheld : AllHeld (runB c ops) := by
+    intro i n hi e he
+    have hlt : i < k := by
+      have := (List.getElem?_eq_some_iff.mp hi).1
+      rw [hown'.len] at this; exact this
+    have hv := hL'.ver_le e he
+    exact hall i e.1.1 hlt (hown'.sites e he) n hi e.1.2 hv.1 hv.2
+  refine ⟨hlog, hheld, ?_⟩
+  intro i n hi
+  have := converged_at_quiescence_batch_partial hr' hL' (by rw [hlog]; exact hnt) (by rw [hlog]; exact hcs)
+    hheld i n hi
+  rw [hlog] at this
+  exact this
+
 /-! ### concrete runs (non-vacuity) and counterexamples
 
 Field order of `Chg`: `tbl pk cid val colv cl site dbv seq`. -/
@@ -258,6 +330,38 @@ example : (view (Ex.nodeOf cD2 0).db "t" "1").cell "a" = some (.int 8, 3) ∧
     (view (Ex.nodeOf cD2 2).db "t" "1").cell "b" = some (.int 2, 1) ∧
     (view (Ex.nodeOf cD2 2).db "t" "2").cell "a" = some (.int 5, 1) ∧
     (spec cD2.log.all "t" "1").cell "a" = some (.int 8, 3) := by decide
+
+/-! #### liveness, concretely -/
+
+/-- stop after node 1 has received everything (node 2 knows nothing), let node 1 delete row `t/2`,
+then run ONE round of sessions over all ordered pairs, every client processing the answers of its
+session in two batches (odd-numbered answers in reverse order, then the even-numbered ones) -/
+def opsF : List OpB := opsD ++ [.write 1 [.del "t" "2"]]
+
+def cF : Cluster := runB (Cluster.init 3) opsF
+
+theorem cF_reach : ReachLiveB 3 cF := reachLiveB_run ReachLiveB.init opsF (by decide)
+
+set_option maxRecDepth 100000 in
+set_option synthInstance.maxSize 4096 in
+/-- the hypotheses of `eventual_convergence_batch_partial` hold (6 sessions, each lossless from a
+clean state); before the round node 2 holds nothing, afterwards every node holds everything and shows
+row `t/2` deleted -/
+example : LogOK cF.log ∧ NoTies cF.log.all ∧ CompleteStrong cF.log.all ∧
+    losslessCheckB cF (allPairsB 3 8) = true ∧
+    Ex.books cF 2 = [] ∧
+    Ex.books (runB cF (allPairsB 3 8)) 0 = [(0, 4, [], []), (1, 1, [], [])] ∧
+    Ex.books (runB cF (allPairsB 3 8)) 1 = [(0, 4, [], []), (1, 1, [], [])] ∧
+    Ex.books (runB cF (allPairsB 3 8)) 2 = [(0, 4, [], []), (1, 1, [], [])] ∧
+    (view (Ex.nodeOf (runB cF (allPairsB 3 8)) 0).db "t" "2").cl = 2 ∧
+    (view (Ex.nodeOf (runB cF (allPairsB 3 8)) 2).db "t" "2").cl = 2 := by decide
+
+/-- the theorem applied to that run -/
+example : ∀ (i : Nat) (n : Node), (runB cF (allPairsB 3 8)).nodes[i]? = some n →
+    view n.db = spec cF.log.all :=
+  (eventual_convergence_batch_partial cF_reach (by decide) (by decide) (by decide) (allPairsB 3 8)
+    (losslessRunB_of_check (by decide))
+    (fun _ _ hi ha hne => ⟨_, allPairsB_covers hi ha hne⟩)).2.2
 
 /-! #### counterexample 1: a batch is not a sequence of singleton deliveries -/
 
